@@ -981,6 +981,7 @@ func main() {
 			timed("C", func() { partC(run, r.Fork(3), tmpRoot, bufBin) })
 			timed("E", func() { partE(run, r.Fork(5), tmpRoot, bufBin) })
 			timed("E-many", func() { partEMany(run, r.Fork(6), tmpRoot, bufBin) })
+			timed("E-cycles", func() { partECycles(run, r.Fork(8), tmpRoot, bufBin) })
 		}
 	} else {
 		partB(run, r.Fork(2))
